@@ -43,12 +43,12 @@ Proof. exact verify_perm_keys_params. Qed.
 Print Assumptions C10_verify_keys_params_order_independent.
 
 Theorem C10_verify_inst_order_independent :
-  forall now truths tc tcc cmds fuel w path d layout_env keys keys' step_name params params' inter,
+  forall now truths tc tcc pems cmds fuel w path d layout_env keys keys' step_name params params' inter,
     Permutation keys keys' -> NoDup (map fst params) -> Permutation params params' ->
-    verify_inst now truths tc tcc cmds fuel w path d layout_env keys step_name params inter =
-    verify_inst now truths tc tcc cmds fuel w path d layout_env keys' step_name params' inter.
+    verify_inst now truths tc tcc pems cmds fuel w path d layout_env keys step_name params inter =
+    verify_inst now truths tc tcc pems cmds fuel w path d layout_env keys' step_name params' inter.
 Proof.
-  intros now truths tc tcc cmds fuel w path d layout_env keys keys' step_name params params' inter Hk Hnd Hp.
+  intros now truths tc tcc pems cmds fuel w path d layout_env keys keys' step_name params params' inter Hk Hnd Hp.
   unfold verify_inst. apply verify_perm_keys_params; [exact Hk|]. intro l. apply substitute_perm; assumption.
 Qed.
 Print Assumptions C10_verify_inst_order_independent.
